@@ -81,3 +81,26 @@ package packet
 //@ props C45
 //@ modifies heap
 //@ canary ensures err != nil
+
+// signature subpackets (RFC 4880 section 5.2.3.1): one subpacket is parsed out of a non-empty area without an
+// index out of range, whatever its length octets and body say; the rest it returns is the unread tail of the
+// area, so the loop over an area terminates inside it. (Signature.parse, reached for an embedded signature,
+// is trusted here; time.Unix is not interpreted.)
+//@ func (*Signature).parse
+//@ trusted
+//@ note parse of a (possibly embedded) signature packet: not verified here; assumed to write only the signature it is called on
+//@ modifies sig.*
+
+//@ func parseSignatureSubpacket
+//@ props C45
+//@ nonnil sig
+//@ requires len(subpacket) >= 1
+//@ modifies heap
+//@ ensures implies(err == nil, len(rest) < len(subpacket))
+//@ canary ensures err != nil
+
+//@ func parseSignatureSubpackets
+//@ props C45
+//@ nonnil sig
+//@ modifies heap
+//@ canary ensures err == nil
